@@ -329,7 +329,7 @@ func (o *oC01) OnIdle(k *Kernel) {
 	if len(o.t.tracked) > 0 {
 		k.Violate("C01", "state-table", "table-not-empty-at-idle", fmt.Sprintf("%v", o.t.tracked))
 	}
-	if !o.r.sc.Cfg.UseHQ && len(o.r.sc.LQFaults) == 0 {
+	if !o.r.sc.Cfg.UseHQ && !persistentFaults(o.r.sc) {
 		// the queue has drained and its batch timers have fired: every finish it received has become a DELETE of that row
 		var kept []string
 		for _, nm := range o.t.takenIDs {
